@@ -62,3 +62,30 @@ def write_replay(path, prop, obligations, what, body):
         f.write(REPLAY_HEADER.format(prop=prop, obligations=obligations, what=what))
         f.write(body)
     os.chmod(path, 0o755)
+
+
+def shape_zoo(ns):
+    """Unit expressions with the shapes that special cases tend to get wrong; every stand-in mixes
+    them into its random inputs (sources are evaluated lazily by the caller)."""
+    z = [
+        "One", "(Kilo*One)", "(Kibi*One)", "((Kilo*Meter)/Meter)", "((Mega*Second)**2/Second**2)", "(Meter/Meter)",
+        "Meter", "(Kilo*Meter)", "(Milli*Meter)**2", "Meter**-1", "(Kilo*Meter)**-2", "Meter**3",
+        "Kilogram", "(Kilo*Kilogram)", "Gram", "(Milli*Gram)**-1",
+        "Newton", "(Kilo*Newton)", "Joule", "Watt", "(Newton*Meter)", "(Joule/Second)", "(Kilogram*Meter**2/Second**3)",
+        "Radian", "Degree", "Steradian", "(Radian**-1)", "(Degree*Meter)",
+        "Hertz", "(Kilo*Hertz)", "Second**-1", "Becquerel",
+        "Byte", "(Kibi*Byte)", "(Kilo*Byte)", "Bit", "(Kilo*Kibi*Bit)", "(Mebi*Bit)/Second",
+        "Foot", "Inch", "(Foot*PoundForce/Second)", "Horsepower", "Acre", "(Acre*Foot)", "Liter", "(Milli*Liter)",
+        "Hour", "(Meter/Second)", "(Kilo*Meter/Hour)", "Knot", "(Meter/Second**2)", "GForce",
+        "Ohm", "Volt", "(Milli*Volt)", "Farad", "(Micro*Farad)", "Siemens",
+        "Mole", "Candela", "Lumen", "Lux", "Katal",
+    ]
+    return [s for s in z if _evaluates(s, ns)]
+
+
+def _evaluates(src, ns):
+    try:
+        eval(src, ns)
+        return True
+    except Exception:
+        return False
